@@ -70,8 +70,11 @@ def run(case):
     steps = case["steps"]
     tags = ["class:" + ("B" if case.get("hazard") else "A")]
     pdesc = c06.describe(steps)
-    base = attempt(prog.run_lib, steps, "L")
+    base = attempt(prog.run_lib, steps, "L", None, True)
     inserted_on_derived = False
+    if base.ok and base.value[3]:
+        si, what, changed = base.value[3][0]
+        return violated("the read-only step %d (%s) changed %s\n%s" % (si, what, changed, pdesc), tags + ["purity"])
     for plan in case["plans"]:
         tags.append("plan:" + plan["kind"])
         rp = {int(k): [tuple(r) for r in v] for k, v in plan["reads"].items()}
@@ -102,6 +105,7 @@ def run(case):
         if breaches:
             si, what, changed = breaches[0]
             return violated("the read-only operation %s (after step %d) changed the content of %s\n%s\n%s" % (what, si, changed, pdesc, plan_desc), tags + ["purity"])
+        base_b = base.value[3] if base.ok else []
         for v in finalA:
             if not deep_same(finalA[v], finalB.get(v)):
                 return violated("variable %s ends as %s without and as %s with the inserted reads\n%s\n%s" % (v, short(finalA[v], 200), short(finalB.get(v), 200), pdesc, plan_desc),
@@ -192,6 +196,11 @@ def directed():
         steps = [{"op": "init", "v": "a0", "rows": F, "dtype": "float64"}, {"op": "neg", "v": "a1", "u": "a0"}, {"op": "ufcol", "v": "a2", "u": "a1", "col": col, "side": "R"},
                  {"op": "ufcol", "v": "a3", "u": "a0", "col": col, "side": "L"}, {"op": "obs", "u": "a2", "what": "tolist", "arg": None}, {"op": "obs", "u": "a3", "what": "tolist", "arg": None}]
         yield {"steps": steps, "hazard": False, "plans": [{"kind": "everything", "reads": {"0": [["a0", rd, None]], "1": [["a1", rd, None]]}}, {"kind": "random", "reads": {"1": [["a1", rd, None]]}}]}
+    # index arrays handed to a read are the caller's: negative entries must still be negative afterwards
+    for rows_ in (np.array([-1, 0, -2]), np.array([-3, -3], dtype=np.int32), np.array([2, -1])):
+        steps = [{"op": "init", "v": "a0", "rows": [[1, 2], [3, 4, 5], [6, 7]]}, {"op": "obs", "u": "a0", "what": "rowscol", "arg": [rows_.copy(), 1]},
+                 {"op": "sel", "v": "a1", "u": "a0", "rs": slice(None, None, -1), "cs": None, "has_cs": False}, {"op": "obs", "u": "a1", "what": "rowscol", "arg": [rows_.copy(), -1]}]
+        yield {"steps": steps, "hazard": False, "plans": [{"kind": "everything", "reads": {"0": [["a0", "rowscol", [rows_.copy(), 0]]], "2": [["a1", "rowscol", [rows_.copy(), 0]]]}}]}
     for _ in range(250):
         yield with_plans(rng, prog.gen_program(rng, "quick"))
     for _ in range(120):
